@@ -137,12 +137,20 @@ pub struct ScResult {
     pub contended: bool,
     /// payload of some arc dropped more than once / by a non-final drop (model sanity, always false)
     pub ill_formed: Option<String>,
+    /// a send can take effect after the receiver was dropped
+    pub send_after_rx_drop: bool,
+    /// a notify_one can find two or more waiters queued (the choice of the waiter is free)
+    pub notify_one_choice: bool,
+    /// a try_lock / try_read / try_write / try_recv can fail in some reachable state
+    pub try_can_fail: bool,
 }
 
 pub struct Sc<'a> {
     prog: &'a Program,
     opts: Opts,
     n: usize,
+    /// (send_after_rx_drop, notify_one_choice, try_can_fail)
+    flags: std::cell::Cell<(bool, bool, bool)>,
 }
 
 enum Step {
@@ -154,7 +162,7 @@ enum Step {
 
 impl<'a> Sc<'a> {
     pub fn new(prog: &'a Program, opts: Opts) -> Sc<'a> {
-        Sc { prog, opts, n: prog.n_threads() }
+        Sc { prog, opts, n: prog.n_threads(), flags: std::cell::Cell::new((false, false, false)) }
     }
 
     fn init(&self) -> St {
@@ -412,6 +420,8 @@ impl<'a> Sc<'a> {
                     Self::acq(&mut s.ck, t, |c| c.mtx[m], true, true);
                     done!(1)
                 } else {
+                    let f = self.flags.get();
+                    self.flags.set((f.0, f.1, true));
                     done!(0)
                 }
             }
@@ -438,6 +448,8 @@ impl<'a> Sc<'a> {
                     Self::acq(&mut s.ck, t, |c| c.rw_r[r], false, true);
                     done!(s.rw_val[r])
                 } else if is_try {
+                    let f = self.flags.get();
+                    self.flags.set((f.0, f.1, true));
                     done!(-1)
                 }
             }
@@ -451,6 +463,8 @@ impl<'a> Sc<'a> {
                     Self::acq(&mut s.ck, t, |c| c.rw_r[r], true, true);
                     done!(s.rw_val[r])
                 } else if is_try {
+                    let f = self.flags.get();
+                    self.flags.set((f.0, f.1, true));
                     done!(-1)
                 }
             }
@@ -504,6 +518,10 @@ impl<'a> Sc<'a> {
                 if s.cv_q[cv].is_empty() {
                     done!()
                 }
+                if s.cv_q[cv].len() >= 2 {
+                    let f = self.flags.get();
+                    self.flags.set((f.0, true, f.2));
+                }
                 let choices = if self.opts.notify_any { s.cv_q[cv].len() } else { 1 };
                 for i in 0..choices {
                     let mut s2 = s.clone();
@@ -540,14 +558,19 @@ impl<'a> Sc<'a> {
                 done!()
             }
             Op::NfWait { n } => {
+                // loom decides when `wait` is called whether this call is the (single) spurious
+                // return of the Notify; otherwise the call is a real wait that blocks until notified.
                 let n = n as usize;
-                if self.opts.spurious && !s.nf_spur[n] {
-                    let mut s2 = s.clone();
-                    s2.nf_spur[n] = true;
-                    s2.pc[t] += 1;
-                    out.push(Step::Done(s2));
-                }
-                if s.nf_flag[n] {
+                if s.phase[t] == 0 {
+                    if self.opts.spurious && !s.nf_spur[n] {
+                        let mut s2 = s.clone();
+                        s2.nf_spur[n] = true;
+                        s2.pc[t] += 1;
+                        out.push(Step::Done(s2));
+                    }
+                    s.phase[t] = 1;
+                    out.push(Step::Hidden(s));
+                } else if s.nf_flag[n] {
                     s.nf_flag[n] = false;
                     Self::acq(&mut s.ck, t, |c| c.nf[n], true, true);
                     done!()
@@ -560,8 +583,23 @@ impl<'a> Sc<'a> {
                 done!()
             }
             Op::Park => {
-                if s.tok[t] {
-                    s.tok[t] = false;
+                // phase 0: consume a stored token, or become parked; phase 1: parked, resumes when
+                // an unpark hands the wake-up over directly (the token is then not stored)
+                if s.phase[t] == 0 {
+                    if s.tok[t] {
+                        s.tok[t] = false;
+                        Self::acq(&mut s.ck, t, |c| c.tok[t], true, true);
+                        if let Some(b) = &mut s.ck {
+                            b.0.tok[t] = [0; MAXT];
+                            b.1.tok[t] = [0; MAXT];
+                        }
+                        done!()
+                    } else {
+                        s.phase[t] = 1;
+                        out.push(Step::Hidden(s));
+                    }
+                } else if s.woken[t] {
+                    s.woken[t] = false;
                     Self::acq(&mut s.ck, t, |c| c.tok[t], true, true);
                     if let Some(b) = &mut s.ck {
                         b.0.tok[t] = [0; MAXT];
@@ -572,9 +610,18 @@ impl<'a> Sc<'a> {
             }
             Op::Unpark { t: u } => {
                 let u = u as usize;
-                s.tok[u] = true;
+                let parked = s.started[u]
+                    && !s.exited[u]
+                    && s.phase[u] == 1
+                    && matches!(self.prog.threads[u].get(s.pc[u] as usize), Some(Op::Park))
+                    && !s.woken[u];
+                if parked {
+                    s.woken[u] = true;
+                } else {
+                    s.tok[u] = true;
+                }
                 if let Some(b) = &mut s.ck {
-                    // hb_min: only the last unpark before the park consumes the token
+                    // hb_min: only the unpark whose token / wake-up the park consumes
                     let tc = b.0.th[t];
                     b.0.tok[u] = tc;
                     b.0.th[t][t] += 1;
@@ -605,6 +652,10 @@ impl<'a> Sc<'a> {
                 }
             }
             Op::Send { v } => {
+                if s.rx_dropped {
+                    let f = self.flags.get();
+                    self.flags.set((true, f.1, f.2));
+                }
                 s.queue.push(v);
                 if let Some(b) = &mut s.ck {
                     // hb_min: the message carries the sender's clock only
@@ -632,6 +683,8 @@ impl<'a> Sc<'a> {
                     }
                     done!(v as i64)
                 } else if is_try {
+                    let f = self.flags.get();
+                    self.flags.set((f.0, f.1, true));
                     done!(-1)
                 }
             }
@@ -889,6 +942,10 @@ impl<'a> Sc<'a> {
             seen.insert(st);
         }
         r.states = seen.len();
+        let f = self.flags.get();
+        r.send_after_rx_drop = f.0;
+        r.notify_one_choice = f.1;
+        r.try_can_fail = f.2;
         r.race_min = races.0;
         r.race_max = races.1;
         r
